@@ -16,7 +16,7 @@ LEVEL_TEXT = {
     "C04": "Lean 4 theorems for every traditional type tree: the compile-time copy plan (OpMode.planLeaf) covers each leaf's bits exactly once, and executing the emitted items in each dialect (C little-endian pointer items, C big-endian value items, Go items) encodes to Spec.encode and decodes back — the same bytes as standard mode. Tie: every generated -O program of a run is parsed back into items and compared with the plan; generated C -O is executed (LE, and BE emulation); Go cannot be compiled here (no toolchain): generated Go -O statements are tied structurally and additionally executed by an interpreter of their statement subset (tools/gointerp.py) against the specification.",
     "C05": "Lean 4 theorems: for every pair of schemas related by Evo (append fields to extensible messages, grow extensible arrays, any depth, any chain — reflexive-transitive closure proved), every in-range value of the newer schema decodes under the older one (Spec, Python model, C model) to the projection of the value, and the cursor lands exactly after the sender's data. The array part was false of the unchanged runtimes (skip formula); repaired by a fix: commit, the old formula's failure is kept as a proved witness.",
     "C06": "Lean 4 theorems: the big-endian build of the C runtime model (staging through BpHostToLittleEndian / value-shift items, byte-reversed cells) produces and consumes exactly the same wire bytes as the little-endian build for every well-formed type and in-range value; the bit copier is build-independent; the -O endian selection emits the right items. Tie: the real runtime compiled with -DBP_BIG_ENDIAN on byte-reversed storage (the property's own emulation) executed against the model. A real big-endian CPU is outside the model.",
-    "C07": "Lean 4 theorems: the size constant is ceil(N/8); encoding an over-range value equals encoding its reduction modulo 2^width (no neighbouring bit changes) in the specification, the Python model and the C model; with a buffer of exactly ceil(N/8) bytes and cells of exactly their storage size no modelled access leaves its object (the models raise on any out-of-range index). Tie: real Python and C executed with over-range values, guard zones around buffers and structs, and the -O masks parsed from generated text.",
+    "C07": "Lean 4 theorems: the size constant is ceil(N/8); encoding an over-range value equals encoding its reduction modulo 2^width (no neighbouring bit changes) in the specification, the Python model and the C model; with a buffer of exactly ceil(N/8) bytes and cells of exactly their storage size no modelled access leaves its object (the models raise on any out-of-range index). Tie: real Python and C executed with over-range values, guard zones around buffers and structs, decoders (standard and -O) reading from a buffer that ends exactly at an inaccessible page (a read beyond ceil(N/8) bytes faults and is reported), and the -O masks parsed from generated text.",
     "C08": "Lean 4 theorems about an executable reference of the documented rules (Front.checkProgram): acceptance implies well-formedness of every elaborated message (the hypothesis of C01-C07; C08_text_accept_wf states it for every source TEXT the modelled pipeline accepts), per-rule boundary statements, numeric limits tied to the validators' source by the translator. The iff against the real compiler is established by correspondence: generated valid programs and single-violation mutants (about 28 kinds, boundary values on both sides) must get the same verdict, rule family, file and line from bitproto.parser.parse, the CLI and the reference. Since the text-level model exists (Lex.lex: PLY's rule order, boundaries, lazy errors; Parse.parseText: a predictive parser from grammars.py) the same comparison runs on arbitrary TEXT (repo files and generated programs under character / token mutations, random token sequences, truncations): acceptance always, rule and line unless one side reports a syntactic stop. PLY's automaton itself is not modelled, hence partial.",
     "C09": "Partial. Lean 4 theorems for the places where totality is not by construction: the lexer's index-driven escape loop never raises IndexError nor runs out of steps on anything the token regular expression matches; the expression parser, tokenizer and import recursion never exhaust their fuel (answers independent of fuel beyond 2|tokens|+2, |text|, |files|+1); evaluation ends in a value or one of four parser-error kinds; the text-level models (lexer of the whole token language, grammar) terminate on every text — no fuel bound is ever hit — and number lines correctly; PLY's LALR automaton and the renderers as a whole are not modelled: their totality is explored (five input streams incl. stress inputs, worker pool under an interval timer, real CLI), not proved.",
     "C10": "Partial. What a theorem can carry is the declaration discipline of the output, not gcc's verdict: Lean 4 theorems that the emission order (children first, siblings in declaration order) emits every definition exactly once, nested definitions before their parent and earlier siblings before later ones — with C08/C11 this is declared-before-use. The toolchains (gcc, g++ with sizeof/offsetof asserts, Python import + instantiate, static Go discipline; no Go toolchain here) run on every generated program as correspondence. Eight known findings of the unchanged tree are listed; three defects repaired.",
@@ -38,7 +38,7 @@ NOTE = {
     "C04": TRUST + "item semantics per dialect written from the language definitions; Go -O code is never executed (no Go toolchain) — tied structurally by parsing generated statements into items.",
     "C05": TRUST + "as C02/C03; the evolution relation Evo is the documented one (append with larger numbers / grow capacity of extensible nodes).",
     "C06": TRUST + "big-endian host emulated (BP_BIG_ENDIAN build on byte-reversed storage): valid for the byte-moving code; a real big-endian CPU and its compiler are outside the model.",
-    "C07": TRUST + "bounds are about modelled accesses; memory outside the modelled objects is observed by guard zones (validation).",
+    "C07": TRUST + "bounds are about modelled accesses; memory outside the modelled objects is observed by guard zones and an inaccessible page after the decode buffer (validation).",
     "C08": TRUST + "the abstract surface syntax (items with lines) printed by the harness' printer; lexer and PLY automaton outside the model (partial).",
     "C09": TRUST + "PLY and the renderers are not modelled; a hang is 20 s wall clock in a worker; three known findings of the unchanged tree (empty enum, constants beyond 4300 digits at render time, nesting deeper than about 490 levels).",
     "C10": TRUST + "gcc / g++ / CPython as oracles for acceptance; Go discipline checked statically (no toolchain); known findings listed in known_findings.json.",
